@@ -33,6 +33,13 @@ def scenario(ctx, i, jfa=True):
             s["f"] = np.where(np.isfinite(mean), mean, 0.0) * s["n"][:, None]
     sc["iters"] = int(r.integers(1, 4))
     sc["interleave"] = int(r.integers(0, 10**6)) if r.random() < 0.5 else None
+    sc["int_subspaces"] = bool(r.random() < 0.25)
+    if sc["int_subspaces"]:
+        sc["U"] = np.rint(np.asarray(sc["U"]) * 2.0)
+        sc["V"] = np.rint(np.asarray(sc["V"]) * 2.0)
+        sc["U"][0] = np.where(sc["U"][0] == 0, 1.0, sc["U"][0])  # keep the loading matrices away from the all-zero matrix
+        if sc["V"].size:
+            sc["V"][0] = np.where(sc["V"][0] == 0, 1.0, sc["V"][0])
     return sc
 
 
@@ -107,7 +114,7 @@ def correspondence(ctx):
         ctx.case([core.tolist(sc["U"]), core.tolist([[s["f"] for s in c] for c in sc["classes"]]), sc["iters"]],
                  nontrivial=len(sc["classes"]) >= 2 and max(len(c) for c in sc["classes"]) >= 2,
                  sample={"machine": "jfa" if sc["jfa"] else "isv", "C": C, "D": D, "rU": rU, "rV": rV, "sessions_per_class": [len(c) for c in sc["classes"]], "iters": sc["iters"]})
-        inp = {k: sc[k] for k in ("C", "D", "rU", "rV", "jfa", "w", "m", "v", "U", "V", "Dd", "classes", "iters", "interleave")}
+        inp = {k: sc[k] for k in ("C", "D", "rU", "rV", "jfa", "w", "m", "v", "U", "V", "Dd", "classes", "iters", "interleave", "int_subspaces")}
         im = core.impl(lambda: impl_first_steps(sc))
         if isinstance(im, core.ImplError):
             bad.append({"op": "fa_train:jfa_fit" if sc["jfa"] else "fa_train:isv_fit", "input": inp, "impl": repr(im)})
@@ -239,7 +246,7 @@ def search(ctx):
         f = oracle(sc, 3 if ctx.tier == "quick" else 6, per_class)
         if f and f["sig"] not in seen:
             seen.add(f["sig"])
-            f["input"] = {**{k: sc[k] for k in ("C", "D", "rU", "rV", "jfa", "w", "m", "v", "U", "V", "Dd", "classes", "iters", "interleave")}, "per_class": per_class}
+            f["input"] = {**{k: sc[k] for k in ("C", "D", "rU", "rV", "jfa", "w", "m", "v", "U", "V", "Dd", "classes", "iters", "interleave", "int_subspaces")}, "per_class": per_class}
             fails.append(f)
     return fails
 
